@@ -5,6 +5,8 @@ import Mb2.Spec
 import Mb2.Lemmas.Arith
 import Mb2.Lemmas.Common
 import Mb2.Lemmas.Iter
+import Mb2.Tags
+import Mb2.Props.C05
 namespace Mb2.C03
 open Mb2
 
@@ -272,5 +274,50 @@ example : tagsOf .release .ht [1,0,0,0, 4,0,0,0,  0,0,0,0, 8,0,0,0] = ([], .bad)
 example : tagsOf .dev .tag [1,0,0,0, 12,0,0,0, 9,9,9,9, 0,0,0,0] = ([⟨0,1,12,4⟩], .done) := by decide
 example : poolRun .dev .tag [1,0,0,0, 8,0,0,0] [some 0] [.next 0, .clone 0, .next 0, .next 1, .fresh, .next 2]
     = [.item ⟨0,1,8,0⟩, .cloned, .none, .none, .fresh, .item ⟨0,1,8,0⟩] := by decide
+
+
+/-- the view the module iterator hands out for a module tag of the walk -/
+def modView (it : Item) : View := ⟨it.off, it.size, roundUp8 it.size, it.size - 16⟩
+
+/-- the module iterator over a list of walk items: exactly the module-typed items, in order, each as its typed view, as
+    long as every module tag is at least the 16-byte fixed part long -/
+theorem modules_go (p : Profile) (w : List Item × End) (items : List Item)
+    (hit : ∀ it ∈ items, 8 ≤ it.size ∧ it.pl = it.size - 8) (hsz : ∀ it ∈ items, it.typ = 3 → 16 ≤ it.size) :
+    moduleViews.go p w items = ((items.filter (fun it => it.typ = 3)).map modView, w.2) := by
+  induction items with
+  | nil => simp [moduleViews.go]
+  | cons it rest ih =>
+    have ih' := ih (fun x hx => hit x (by simp [hx])) (fun x hx => hsz x (by simp [hx]))
+    unfold moduleViews.go
+    by_cases ht : it.typ = 3
+    · have h16 := hsz it (by simp) ht
+      obtain ⟨h8, hpl⟩ := hit it (by simp)
+      have hc : castTo p .tag (Kind.desc .module) it.size it.pl = .ok (roundUp8 it.size, it.size - 16) := by
+        rw [hpl]
+        have := C05.dst_view_exact p 16 1 it.size (by omega) h8 (by omega)
+        rw [if_neg (by omega)] at this
+        simpa [Kind.desc] using this
+      rw [if_pos ht, hc, ih']
+      simp [ht, modView]
+    · rw [if_neg ht, ih']
+      simp [ht]
+
+/-- C03 (5): the module iterator yields exactly the module tags (type 3) of the specification's walk, in walk order, each
+    located at the walk's offset with the stored size, and ends the way the walk ends (clean end or controlled panic).
+    (A module tag shorter than its 16-byte fixed part is a controlled panic of the cast - see `C05.dst_view_exact`.) -/
+theorem modules_eq_filter (p : Profile) (area : Bytes) (hb : area.length % 8 = 0) (hlen : area.length < 2^62)
+    (hsz : ∀ it ∈ (Spec.tagsOf .tag area).1, it.typ = 3 → 16 ≤ it.size) :
+    moduleViews p area =
+      (((Spec.tagsOf .tag area).1.filter (fun it => it.typ = 3)).map modView, (Spec.tagsOf .tag area).2) := by
+  unfold moduleViews
+  simp only
+  rw [tags_eq_spec p .tag (Or.inl rfl) area hb hlen]
+  apply modules_go p _ _ _ hsz
+  intro it h
+  have := walk_items_inside .tag area _ 0 (by omega) it h
+  exact ⟨this.2.2.1, this.2.2.2.2.1⟩
+
+example : moduleViews .dev ([3,0,0,0, 17,0,0,0, 1,0,0,0, 2,0,0,0, 0,0,0,0, 0,0,0,0,  0,0,0,0, 8,0,0,0]) =
+    ([⟨0, 17, 24, 1⟩], .done) := by decide
 
 end Mb2.C03
